@@ -126,6 +126,16 @@ Section Ref.
                         (rbind (run st (cl_init cd)) (fun r =>
                          rbind (ref_conj (run st) (SInv o) 0 (cl_invs cd)) (fun _ => rret r)))
             end
+        | TNew o =>
+            (* creation through __new__: no frame - nothing is suspended while the instance is made and
+               its invariants are evaluated *)
+            match class_of P o with
+            | None => rraise EFuel
+            | Some cd =>
+                remit (EvSite (SInitBody o))
+                      (rbind (run stack (cl_init cd)) (fun r =>
+                       rbind (ref_conj (run stack) (SInv o) 0 (cl_invs cd)) (fun _ => rret r)))
+            end
         end
     end.
 End Ref.
